@@ -413,17 +413,26 @@ theorem ss_icontains_eq (s1 s2 : Bytes) : ss_icontains s1 s2 = containsS (lowerS
     · rintro ⟨i, hi, h⟩; exact ⟨i, by omega, h⟩
     · rintro ⟨i, hi, h⟩; exact ⟨i, by omega, h⟩
 
-/-- ss_compare is the lexicographic comparison by SIGNED char -/
+/-- byte order of `(uint8_t) a < (uint8_t) b` -/
+def ucLt (a b : UInt8) : Bool := decide ((a.toNat : Int) < (b.toNat : Int))
+
+theorem ucLt_eq (a b : UInt8) : ucLt a b = decide (a < b) := by
+  unfold ucLt
+  apply decide_eq_decide.mpr
+  rw [UInt8.lt_iff_toNat_lt]
+  omega
+
+/-- ss_compare is the lexicographic comparison by UNSIGNED byte value (since the repair of finding F57) -/
 theorem ss_compare_eq (s1 s2 : Bytes) :
-    ss_compare s1 s2 = cmpWith (fun a b => a == b) (fun a b => decide (scB a < scB b)) s1 s2 := by
+    ss_compare s1 s2 = cmpWith (fun a b => a == b) ucLt s1 s2 := by
   unfold ss_compare
   have hb : ∀ k, (fun i => decide (s1.length > i) && decide (s2.length > i) && decide (sc s1 i = sc s2 i)) k = true → k < s1.length := by
     intro k hk; simp only [Bool.and_eq_true, decide_eq_true_eq] at hk; exact hk.1.1
   obtain ⟨_, h2, h3⟩ := scan_spec _ s1.length hb (s1.length + s2.length + 1) 0 (by omega)
   dsimp only
   generalize scan (fun i => decide (s1.length > i) && decide (s2.length > i) && decide (sc s1 i = sc s2 i)) (s1.length + s2.length + 1) 0 = r at h2 h3
-  rw [cmp_idx (fun a b => a == b) (fun a b => decide (scB a < scB b)) r s1 s2]
-  · simp only [sc_eq, Bool.and_eq_true, decide_eq_true_eq]
+  rw [cmp_idx (fun a b => a == b) ucLt r s1 s2]
+  · simp only [uc_eq, ucLt, Bool.and_eq_true, decide_eq_true_eq]
     by_cases c1 : r = s1.length <;> by_cases c2 : r = s2.length <;> simp [c1, c2]
   · intro k hk
     have := h2 k (Nat.zero_le _) hk
@@ -435,6 +444,9 @@ theorem ss_compare_eq (s1 s2 : Bytes) :
     · exact h3 x1
     · exact h3 x2
     · exact h3 (by simpa using x3)
+
+/-- FROZEN regression definition: the comparison ss_compare computed before df88bf4 (order of SIGNED chars, finding F57) -/
+def ssCompareSignedOld (s1 s2 : Bytes) : Int := cmpWith (fun a b => a == b) (fun a b => decide (scB a < scB b)) s1 s2
 
 theorem ss_icompare_eq (s1 s2 : Bytes) :
     ss_icompare s1 s2 = cmpWith (fun a b => lower a == lower b) (fun a b => decide (scB a < scB b)) s1 s2 := by
